@@ -17,6 +17,7 @@ from liquid2.ast import Partial
 from liquid2.ast import PartialScope
 from liquid2.builtin import Identifier
 from liquid2.builtin import Literal
+from liquid2.builtin import identifier_str
 from liquid2.builtin import parse_keyword_arguments
 from liquid2.builtin import parse_primitive
 from liquid2.builtin import parse_string_or_identifier
@@ -60,7 +61,7 @@ class IncludeNode(Node):
         assert isinstance(self.token, TagToken)
         var = f" with {self.var}" if self.var else ""
         if self.alias:
-            var += f" as {self.alias}"
+            var += f" as {identifier_str(self.alias)}"
         if self.args:
             var += ","
         args = " " + ", ".join(str(arg) for arg in self.args) if self.args else ""
